@@ -56,6 +56,9 @@ def runOfJson (j : Json) : Except String Run := do
   let failGet ← match jopt j "failGet" with | some a => idsOfJson a | none => pure []
   let envDel ← match jopt j "envDel" with | some a => idsOfJson a | none => pure []
   let initial ← match jopt j "initial" with | some a => idsOfJson a | none => pure []
+  let failInfo ← match jopt j "failInfo" with
+    | some a => if a.isNull then pure [] else (← asList a).mapM (·.getStr?)
+    | none => pure []
   let watchErr := match ((jstr j "watchErr").toOption.getD "").splitOn ":" with
     | ["wait", n, k] => some (n.toNat!, k.toNat!)
     | _ => none
@@ -66,7 +69,7 @@ def runOfJson (j : Json) : Except String Run := do
            failMut := ← natList j "failMut", failInvRead := ← natList j "failInvRead", failGet := failGet,
            ctrl := ← behaviours j "ctrl", del := ← behaviours j "del",
            cancel := parseCancel ((jstr j "cancel").toOption.getD ""), watchErr := watchErr, watchErrMut := watchErrMut,
-           envDel := envDel, initial := initial }
+           envDel := envDel, initial := initial, failInfo := failInfo }
 
 /-! JSON rendering in the shape of the Go harness -/
 
